@@ -30,11 +30,12 @@ const (
 	opContext
 	opCleanup
 	numOps
+	opFatal = numOps // only ever the last operation of the property's own goroutine (it does not return)
 )
 
-var opNames = [...]string{"Helper", "Name", "Log", "Logf", "Error", "Errorf", "Fail", "Failed", "Context", "Cleanup"}
+var opNames = [...]string{"Helper", "Name", "Log", "Logf", "Error", "Errorf", "Fail", "Failed", "Context", "Cleanup", "Fatalf"}
 
-func isSignal(k int) bool { return k == opError || k == opErrorf || k == opFail }
+func isSignal(k int) bool { return k == opError || k == opErrorf || k == opFail || k == opFatal }
 
 type opRec struct {
 	G        int
@@ -70,6 +71,7 @@ type c14Run struct {
 	nested  bool
 	inRepeat bool // the main goroutine performs its operations as state-machine actions (rapid re-checks the failed flag after each)
 	lateJoin bool // the goroutines are joined by the first-registered cleanup: they keep calling *T methods while rapid runs the cleanups
+	fatalEnd bool // (lateJoin only) the property's own goroutine ends the call with Fatalf while the others still run
 }
 
 func (r *c14Run) runOps(t *rapid.T, inv *c14Inv, g int, ops []int) {
@@ -165,6 +167,11 @@ func (r *c14Run) section(t *rapid.T, inner bool) {
 		})
 	} else {
 		r.runOps(t, inv, 0, r.ops[0])
+		if r.fatalEnd {
+			verifrt.Yield(1000)
+			inv.logs[0] = append(inv.logs[0], opRec{G: 0, K: opFatal, Call: verifrt.Tick(), Ret: 1 << 40}) // never returns
+			t.Fatalf("fatal end of the call")
+		}
 	}
 	if !r.lateJoin {
 		finish()
@@ -191,7 +198,7 @@ var c14Model = porcupine.Model{
 		in := input.(c14In)
 		out := output.(c14Out)
 		switch in.K {
-		case opError, opErrorf, opFail:
+		case opError, opErrorf, opFail, opFatal:
 			st.Failed = true
 			return true, st
 		case opFailed:
@@ -224,6 +231,10 @@ func scenarioC14(rc *RunCtx) {
 		r.lateJoin = true // rapid may end the call (failed flag seen after an action) while the goroutines still run: join in a cleanup
 	}
 	nsig := 0
+	if r.lateJoin && !r.inRepeat && t.Chance("c14.fatal_end", 30) {
+		r.fatalEnd = true
+		nsig++
+	}
 	for g := 0; g <= nG; g++ {
 		n := t.Int("c14.nops", 1, maxOps)
 		var ops []int
@@ -271,7 +282,10 @@ func scenarioC14(rc *RunCtx) {
 		}
 		desc = append(desc, fmt.Sprintf("g%d:[%s]", g, strings.Join(s, " ")))
 	}
-	rc.Sample = fmt.Sprintf("policy=%s seed=%d custom=%v lateJoin=%v inRepeat=%v v=%v checks=%d ops=%s verdict=%s sections=%d", policyNames[r.pol.Kind], r.pol.Seed, useCustom, r.lateJoin, r.inRepeat, fl.Verbose, fl.Checks, strings.Join(desc, " "), tb.verdict(), len(r.invs))
+	if r.fatalEnd {
+		rc.Inc("probe.call_ended_by_fatalf_while_goroutines_run")
+	}
+	rc.Sample = fmt.Sprintf("policy=%s seed=%d custom=%v lateJoin=%v fatalEnd=%v inRepeat=%v v=%v checks=%d ops=%s verdict=%s sections=%d", policyNames[r.pol.Kind], r.pol.Seed, useCustom, r.lateJoin, r.fatalEnd, r.inRepeat, fl.Verbose, fl.Checks, strings.Join(desc, " "), tb.verdict(), len(r.invs))
 	if r.lateJoin {
 		rc.Inc("probe.goroutines_running_during_cleanup_phase")
 	}
